@@ -45,28 +45,37 @@ def leaf (v : String) : Option (Int → Except Exc Int) :=
 def parseSlice (a b c : String) : Option Slice := do
   pure ⟨← optInt? a, ← optInt? b, ← optInt? c⟩
 
-/-- A list operation whose items are parsed by `item?` / `items?`. -/
+/-- A list operation whose items are parsed by `item?` / `items?`; `@` as the
+iterable argument stands for the list the operation is applied to, so the
+result is a function of that list's current contents. -/
 def parseListOp (item? : String → Option CV) (items? : String → Option (List CV)) :
-    List String → Option (Op CV)
-  | ["si", i, x] => do pure (.setIdx (← int? i) (← item? x))
-  | ["ss", a, b, c, xs] => do pure (.setSlice (← parseSlice a b c) (← items? xs))
-  | ["di", i] => do pure (.delIdx (← int? i))
-  | ["ds", a, b, c] => do pure (.delSlice (← parseSlice a b c))
-  | ["ap", x] => do pure (.append (← item? x))
-  | ["ex", xs] => do pure (.extend (← items? xs))
-  | ["ia", xs] => do pure (.iadd (← items? xs))
-  | ["im", n] => do pure (.imul (← int? n))
-  | ["in", i, x] => do pure (.insert (← int? i) (← item? x))
-  | ["po", i] => do pure (.pop (← int? i))
-  | ["cl"] => some .clear
-  | ["rv"] => some .reverse
+    List String → Option (List CV → Op CV)
+  | ["si", i, x] => do let i ← int? i; let x ← item? x; pure (fun _ => .setIdx i x)
+  | ["ss", a, b, c, xs] => do
+    let sl ← parseSlice a b c
+    if clean xs = "@" then pure (fun l => .setSlice sl l)
+    else do let ys ← items? xs; pure (fun _ => .setSlice sl ys)
+  | ["di", i] => do let i ← int? i; pure (fun _ => .delIdx i)
+  | ["ds", a, b, c] => do let sl ← parseSlice a b c; pure (fun _ => .delSlice sl)
+  | ["ap", x] => do let x ← item? x; pure (fun _ => .append x)
+  | ["ex", xs] =>
+    if clean xs = "@" then pure (fun l => .extend l)
+    else do let ys ← items? xs; pure (fun _ => .extend ys)
+  | ["ia", xs] =>
+    if clean xs = "@" then pure (fun l => .iadd l)
+    else do let ys ← items? xs; pure (fun _ => .iadd ys)
+  | ["im", n] => do let n ← int? n; pure (fun _ => .imul n)
+  | ["in", i, x] => do let i ← int? i; let x ← item? x; pure (fun _ => .insert i x)
+  | ["po", i] => do let i ← int? i; pure (fun _ => .pop i)
+  | ["cl"] => some (fun _ => .clear)
+  | ["rv"] => some (fun _ => .reverse)
   | _ => none
 
 def atom? (s : String) : Option CV := (int? s).map .atom
 def atoms? (s : String) : Option (List CV) := (intList? s).map (·.map .atom)
 
 inductive NOp where
-  | at (path : List Nat) (op : Op CV)
+  | at (path : List Nat) (op : List CV → Op CV)
   | assign (v : CV)
 
 def parseNOp (s : String) : Option NOp :=
@@ -85,17 +94,26 @@ partial def showCV : CV → String
 def noEq : CV → CV → Bool := fun _ _ => false
 def noSort : Nat → List CV → List CV := fun _ l => l
 
+/-- The contents of the list a path leads to. -/
+def listAt : CV → List Nat → Option (List CV)
+  | .lst xs, [] => some xs
+  | .lst xs, i :: path => match xs[i]? with | some x => listAt x path | none => none
+  | _, _ => none
+
 def run (tt : TT) : CV → List NOp → List String
   | _, [] => []
   | cv, .assign v :: ops =>
     match tt.validate v with
     | .error e => s!"err {e.name}" :: run tt cv ops
     | .ok cv' => s!"ok {showCV cv'}" :: run tt cv' ops
-  | cv, .at path op :: ops =>
-    match stepAt noEq noSort tt path op cv with
-    | none => "err IndexError" :: run tt cv ops            -- the path does not lead to a list
-    | some (.error e) => s!"err {e.name}" :: run tt cv ops
-    | some (.ok cv') => s!"ok {showCV cv'}" :: run tt cv' ops
+  | cv, .at path f :: ops =>
+    match listAt cv path with
+    | none => "err IndexError" :: run tt cv ops              -- the path does not lead to a list
+    | some here =>
+      match stepAt noEq noSort tt path (f here) cv with
+      | none => "err IndexError" :: run tt cv ops
+      | some (.error e) => s!"err {e.name}" :: run tt cv ops
+      | some (.ok cv') => s!"ok {showCV cv'}" :: run tt cv' ops
 
 def handle (line : String) : String :=
   match (clean line).splitOn "|" with
